@@ -119,6 +119,10 @@ func scribble(v reflect.Value, seen map[uintptr]bool) {
 				scribble(e, seen)
 			}
 		}
+		// and an entry of the caller's own: a map handed back must be the caller's, not one the package keeps
+		if !v.IsNil() && v.Type().Key().Kind() == reflect.String {
+			v.SetMapIndex(reflect.ValueOf("~scribbled").Convert(v.Type().Key()), reflect.Zero(v.Type().Elem()))
+		}
 	case reflect.String:
 		if v.CanSet() {
 			v.SetString(v.String() + "~scribbled")
